@@ -123,3 +123,9 @@ impl BytePages {
 pub fn vx_u8_from_bool(b: bool) -> (r: u8)
     ensures r == (if b { 1u8 } else { 0u8 })
 { if b { 1 } else { 0 } }
+/// R6 target for `&src.as_ref()[0..4] == MQTT` with `MQTT = b"MQTT"` (protocol name, MQTT 5 section 3.1.2.1)
+#[verifier::external_body]
+pub fn vx_starts_with_mqtt(src: &Bytes) -> (r: bool)
+    requires src@.len() >= 4,
+    ensures r == (src@[0] == 0x4Du8 && src@[1] == 0x51u8 && src@[2] == 0x54u8 && src@[3] == 0x54u8),
+{ unimplemented!() }
